@@ -735,3 +735,68 @@ def fold_dereference(repo: Repo) -> dict | None:
         return None
     except (TypeError, KeyError, IndexError, ValueError, AttributeError):
         return None
+
+
+def fold_union_write(repo: Repo) -> dict | None:
+    """UnionMetaType._write over member lists: the bytes written are a full image of the union - a member as large as the union is encoded (an
+    anonymous structure included, when nothing regular is as large), then zero padding up to len(union)."""
+    fi = repo.func("types/structure.py", "UnionMetaType._write")
+    struct_meta = Sym("StructureMetaType")
+    out: dict = {"cases": 0, "bad": []}
+    layouts = {
+        "uint32 / uint16": [("a", 4, False), ("b", 2, False)],
+        "uint16 / uint32": [("a", 2, False), ("b", 4, False)],
+        "anonymous struct of 2 / uint32": [(None, 2, True), ("v", 4, False)],
+        "anonymous struct of 4 / uint32": [(None, 4, True), ("v", 4, False)],
+        "anonymous struct of 3 / uint16": [(None, 3, True), ("v", 2, False)],
+        "only an anonymous struct of 3": [(None, 3, True)],
+        "uint16 / uint16 in a union padded to 4": [("a", 2, False), ("b", 2, False)],
+    }
+    try:
+        for label, members in layouts.items():
+            size = max(m[1] for m in members)
+            if "padded to 4" in label:
+                size = 4
+            from .codecfold import Stream
+
+            st = Stream(b"")
+            st.pos = 10
+            st.written = bytearray(b"\xee" * 10)
+            log: list = []
+
+            def mk(name, n, anon):
+                def w(stream, value, name=name, n=n):
+                    st.written += bytes([0x40 + len(log)]) * n
+                    st.pos += n
+                    log.append((name or "<anonymous struct>", n))
+                    return n
+                return Sym(f"type:{name}", {"size": n, "is_struct": anon}, {"_write": Host(w)})
+
+            fields = [Sym(f"f{i}", {"_name": nm or f"__anon{i}__", "name": nm, "type": mk(nm, n, anon)}) for i, (nm, n, anon) in enumerate(members)]
+            ssym = st.sym()
+
+            def wwrite(b):
+                b = bytes(b)
+                st.written += b
+                st.pos += len(b)
+                return len(b)
+            ssym.methods["write"] = Host(wwrite)
+            cls = Sym("U", {"__fields__": fields, "dynamic": False, "size": size})
+            env = {"isinstance": Host(lambda o, k: k is struct_meta and isinstance(o, Sym) and bool(o.attrs.get("is_struct"))), "StructureMetaType": struct_meta,
+                   "len": Host(lambda o: o.attrs["size"] if isinstance(o, Sym) else len(o)), "getattr": Host(lambda o, n, *d: "<value>")}
+            ev_ = Evaluator(env, steps=4000)
+            try:
+                ev_.call_user(UserFunc(fi.node), [cls, ssym, Sym("data")], {})
+            except Raised as e:
+                out["bad"].append((label, f"raised {e}", ""))
+                continue
+            out["cases"] += 1
+            written = bytes(st.written[10:])
+            first = log[0] if log else None
+            if len(written) != size or first is None or first[1] != max(m[1] for m in members) or any(b != 0 for b in written[first[1]:]) or len(log) != 1:
+                out["bad"].append((label, f"wrote members {log}, {len(written)} bytes in all", f"one member of {max(m[1] for m in members)} bytes then zero padding up to {size}"))
+        return out
+    except Refused:
+        return None
+    except (TypeError, KeyError, IndexError, ValueError, AttributeError):
+        return None
